@@ -157,7 +157,7 @@ def build_alphabet(ga: dict, tier: str = "thorough"):
                 add(f"iban-de-method{m}-{rc}", (lambda t=text: I(t, validate_bban=True)), group="m" + m)
     for m, menu in sorted(ga.get("all_methods", {}).items()):
         for key, acct in sorted(menu.items()):
-            add(f"method{m}-{key}", (lambda m=m, a=acct: alg["DE:" + m].validate([a], "")), group="g" + m)
+            add(f"method{m}-{key}", (lambda m=m, a=acct: alg["DE:" + m].validate([a], "")), group="x" + m)
     add("method00", lambda: alg["DE:00"].validate(["9290701000"], ""), group="m00-24")
     add("method00-b", lambda: alg["DE:00"].validate(["0000000018"], ""), group="m00-24")
     add("method24", lambda: alg["DE:24"].validate(["0000138301"], ""), group="m00-24")
@@ -295,12 +295,14 @@ def _fresh_in_fork(i):
 
 
 def fresh_outcomes(ga, n_ops, tier="thorough"):
-    env = dict(os.environ)
+    # the fresh interpreters run under a DIFFERENT hash seed than this process (PYTHONHASHSEED=0):
+    # "a fresh process" is any process, and the outcome must not depend on its hash salt
+    env = dict(os.environ, PYTHONHASHSEED="4242")
     procs = []
     out = [None] * n_ops
     # the per-method operations take their reference outcome from a fork of the pristine process (a
     # first call after import all the same); everything else from a brand-new interpreter
-    forked = [i for i in range(n_ops) if _CTX["ops"][i][3].startswith("g")]
+    forked = [i for i in range(n_ops) if _CTX["ops"][i][3].startswith("x")]
     for i in forked:
         out[i] = states.in_child(_fresh_in_fork, i)
     pending = [i for i in range(n_ops) if i not in set(forked)]
@@ -413,7 +415,7 @@ def main(tier: str) -> int:
         # ---------------- merge-free sequences
         core = [i for i, o in enumerate(ops) if o[2]]
         if tier == "quick":
-            all_ops = [i for i in all_ops if not ops[i][3].startswith("g")]
+            all_ops = [i for i in all_ops if not ops[i][3].startswith("x")]
         every = list(range(len(ops)))
         same_group = [(a, b) for a in every for b in every
                       if ops[a][3] == ops[b][3] and ops[a][3] != "general"]
